@@ -26,8 +26,8 @@ def run(ctx):
     ctx.use_program(prog)
     check_tables(ctx, prog)
     check_urlset(ctx, prog)
-    check_stride(ctx, prog)
     check_sha_padding(ctx, prog)
+    check_stride(ctx, prog)
     check_decode(ctx, prog)
     # Url::parseQuery(Url::params(d)) = d rests on String::split(sep1, sep2): keys and values are cut at the first separator, an
     # empty value is a value
@@ -42,6 +42,58 @@ def fn1(prog, name, sig=None):
     if not fs:
         raise AnalysisBroken('anchor %s not found' % name)
     return fs[0]
+
+
+_INV = {}
+
+
+def inverse_map(prog):
+    """The symbol-to-value mapping decodeBase64 applies to the bytes of its text: a constant table indexed by the byte or a
+    one-argument helper, recognised by what it does (it maps at least half of the alphabet back to the symbol's index), not by
+    its name.  Returns (values for the bytes 0..len-1, predicate on look-up expressions, name, where)."""
+    if id(prog) in _INV:
+        return _INV[id(prog)]
+    g = prog.globals.get('asl::base64_chars')
+    alpha = bytes(g['init']['b']).decode('latin-1') if g and g.get('init', {}).get('k') == 'str' else RFC4648
+    cands = {}
+    for f in prog.fn('asl::decodeBase64'):
+        if not f.get('body'):
+            continue
+        for e in fn_exprs(f):
+            if e.get('k') == 'idx' and strip(e['b']).get('q') in prog.globals and prog.globals[strip(e['b'])['q']].get('vals') is not None:
+                cands[('table', strip(e['b'])['q'])] = None
+            elif e.get('k') == 'call' and len(e.get('a') or []) == 1 and e.get('fn'):
+                hs = [h for h in prog.fn(e['fn']) if h.get('body') and len(h.get('params') or []) == 1]
+                if len(hs) == 1:
+                    cands[('fn', e['fn'])] = hs[0]
+    best = None
+    for (kind, name), h in cands.items():
+        if kind == 'table':
+            gi = prog.globals[name]
+            vals = list(gi['vals'])
+            where = '%s:%d' % (gi['file'], gi['line'])
+        else:
+            vals = []
+            try:
+                for v in range(256):
+                    call = {'k': 'call', 'fn': name, 'sig': h.get('sig'), 'a': [{'k': 'int', 'v': v}]}
+                    vals.append(bytesets.Evaluator(prog, h).ev(call) & 255)
+            except bytesets.Undecidable:
+                continue
+            where = fwhere(h)
+        hits = sum(1 for i, ch in enumerate(alpha) if ord(ch) < len(vals) and vals[ord(ch)] == i)
+        if hits >= 32 and (best is None or hits > best[0]):
+            best = (hits, vals, kind, name, where)
+    if best is None:
+        raise AnalysisBroken('the symbol-to-value mapping of decodeBase64 (inverse table or helper) was not found: %s' % sorted(cands))
+    _, vals, kind, name, where = best
+
+    def is_lookup(e):
+        if kind == 'table':
+            return e.get('k') == 'idx' and strip(e['b']).get('q') == name
+        return e.get('k') == 'call' and e.get('fn') == name and len(e.get('a') or []) == 1
+    _INV[id(prog)] = (vals, is_lookup, name, where, kind)
+    return _INV[id(prog)]
 
 
 _ABS_DECIDED = {}
@@ -200,20 +252,18 @@ def interp_decode_hex(ctx, prog, f):
 
 def check_tables(ctx, prog):
     g = prog.globals.get('asl::base64_chars')
-    gi = prog.globals.get('asl::base64_chars_inv')
-    if not g or not gi:
+    if not g:
         raise AnalysisBroken('base64 tables not found: %s' % [k for k in prog.globals if 'base64' in k])
+    inv, _, invname, wherei, invkind = inverse_map(prog)
     alpha = bytes(g['init']['b']).decode('latin-1') if g.get('init', {}).get('k') == 'str' else None
     where = '%s:%d' % (g['file'], g['line'])
     ctx.check(alpha == RFC4648, 'C15.tables', 'asl::base64_chars', 'alphabet is RFC 4648', where, '64 symbols', 'Base64 alphabet `%s` is not the RFC 4648 alphabet' % alpha)
-    inv = gi.get('vals')
-    wherei = '%s:%d' % (gi['file'], gi['line'])
-    ctx.check(inv is not None and len(inv) == 256, 'C15.tables', 'asl::base64_chars_inv', 'inverse table has 256 entries', wherei, '256 entries',
+    ctx.check(inv is not None and len(inv) == 256, 'C15.tables', invname, 'inverse table has 256 entries', wherei, '256 entries' if invkind == 'table' else 'helper evaluated for all 256 byte values',
               'inverse table has %s entries: a byte >= that index reads out of bounds' % (len(inv) if inv else None))
     if inv and alpha:
         bad = [ch for i, ch in enumerate(alpha) if ord(ch) >= len(inv) or inv[ord(ch)] != i]
         ctx.evaluations += 64
-        ctx.check(not bad, 'C15.tables', 'asl::base64_chars_inv', 'inverse table inverts the alphabet', wherei, 'all 64 symbols map back to their index',
+        ctx.check(not bad, 'C15.tables', invname, 'inverse table inverts the alphabet', wherei, 'all 64 symbols map back to their index',
                   'inverse table entry for symbol(s) %s does not equal the symbol\'s index in the alphabet' % bad[:8])
     f = fn1(prog, 'asl::encodeBase64', '(const unsigned char *,int)')
     ctx.analysed(f)
@@ -354,7 +404,7 @@ def check_decoder_bits(ctx, prog, f):
     """Bit provenance of the three bytes decodeBase64 writes per group of four symbols s0..s3:
     byte m = bits 23-8m .. 16-8m of (s0 << 18) | (s1 << 12) | (s2 << 6) | s3."""
     role = 'decodeBase64:group assembly'
-    loops = [s_ for s_ in ir.walk_stmts(f['body']) if s_.get('k') in ('for', 'while') and any(e.get('k') == 'idx' and strip(e['b']).get('q') == 'asl::base64_chars_inv' for e in ir.stmt_exprs(s_['body']))]
+    loops = [s_ for s_ in ir.walk_stmts(f['body']) if s_.get('k') in ('for', 'while') and any(inverse_map(prog)[1](e) for e in ir.stmt_exprs(s_['body']))]
     if len(loops) != 1:
         ctx.undecided('C15.tables', f['pq'], role, fwhere(f), 'decoding loop not found')
         return
@@ -401,7 +451,7 @@ def check_decoder_bits(ctx, prog, f):
     for e in ir.stmt_exprs(lp['body']):
         if e.get('k') == 'bin' and e.get('op') == '=' and strip_lv(e['x']).get('k') == 'var':
             vid = strip_lv(e['x'])['id']
-            if any(w.get('k') == 'var' and w.get('id') == vid for w in walk_expr(e['y'])) and any(w.get('k') == 'idx' and strip(w['b']).get('q') == 'asl::base64_chars_inv' for w in walk_expr(e['y'])):
+            if any(w.get('k') == 'var' and w.get('id') == vid for w in walk_expr(e['y'])) and any(inverse_map(prog)[1](w) for w in walk_expr(e['y'])):
                 acc[vid] = e
     if acc:
         if len(acc) != 1:
@@ -416,7 +466,7 @@ def check_decoder_bits(ctx, prog, f):
             return
         cur = bits.const_bits(0)
         for t in range(4):
-            step_env = bits.Env(f, leaf=lambda e, t=t: bits.var_bits(('s', t), 6) if (e.get('k') == 'idx' and strip(e['b']).get('q') == 'asl::base64_chars_inv') else None, through_locals=True)
+            step_env = bits.Env(f, leaf=lambda e, t=t: bits.var_bits(('s', t), 6) if inverse_map(prog)[1](e) else None, through_locals=True)
             step_env.vars[vid] = cur
             cur = step_env.eval(upd['y'])
         env.vars[vid] = cur
@@ -523,19 +573,28 @@ def check_urlset(ctx, prog):
               'params() does not encode both key and value in component mode')
 
 
-def block_loop(ctx, prog, f, B, consumer, role):
+_SHAPAD = {}
+
+
+def block_loop(ctx, prog, f, B, consumer, role, decided_by=None):
     """The loop of f that feeds `consumer` (predicate on expressions of the loop body) one B-byte block per iteration must run
     exactly while a full block is left:  condition(i, N)  <=>  i + B <= N  for every offset i and length N of a grid.
     `=>` keeps the block read inside the input, `<=` means no full block is left unprocessed."""
-    loops = [s_ for s_ in ir.walk_stmts(f['body']) if s_.get('k') in ('for', 'while') and any(consumer(e) for e in ir.stmt_exprs(s_['body']))]
+    loops = [s_ for s_ in ir.walk_stmts(f['body']) if s_.get('k') in ('for', 'while', 'do') and any(consumer(e) for e in ir.stmt_exprs(s_['body']))]
+
+    def other_shape(where, why):
+        # not the offset/length counting form: the rule is a shape view of what the whole-body interpretation decides
+        if decided_by and loops:
+            ctx.ok('C15.stride', f['pq'], role, where, decided_by)
+            return 1
+        ctx.undecided('C15.stride', f['pq'], role, where, why)
+        return 0
     if len(loops) != 1:
-        ctx.undecided('C15.stride', f['pq'], role, fwhere(f), 'no single block loop found (%d candidates)' % len(loops))
-        return 0
+        return other_shape(fwhere(f), 'no single block loop found (%d candidates)' % len(loops))
     lp = loops[0]
-    cl = q.counted_loop(f, lp, need_init=False)
+    cl = q.counted_loop(f, lp, need_init=False) if lp.get('k') != 'do' else None
     if cl is None:
-        ctx.undecided('C15.stride', f['pq'], role, fwhere(f, lp['l']), 'block loop is not a recognised counting loop')
-        return 0
+        return other_shape(fwhere(f, lp['l']), 'block loop is not a recognised counting loop')
     try:
         step = cl['step'] if isinstance(cl['step'], int) else bytesets.Evaluator(prog, f).ev(cl['step'])
         by_id, by_text = bounded.atoms_of(prog, f, cl['cond'], allow_assigned=(cl['var'],))
@@ -544,8 +603,7 @@ def block_loop(ctx, prog, f, B, consumer, role):
         return 0
     others = [i for i in by_id if i != cl['var']]
     if cl['var'] not in by_id or len(others) + len(by_text) != 1:
-        ctx.undecided('C15.stride', f['pq'], role, fwhere(f, lp['l']), 'loop condition `%s` is not a relation between the offset and one length' % pe(cl['cond']))
-        return 0
+        return other_shape(fwhere(f, lp['l']), 'loop condition `%s` is not a relation between the offset and one length' % pe(cl['cond']))
     if step != B:
         ctx.violation('C15.stride', f['pq'], role, fwhere(f, lp['l']), 'the block loop advances by %s per iteration, the block size is %d' % (step, B))
         return 1
@@ -668,7 +726,8 @@ def check_stride(ctx, prog):
     # full-block consumers
     f = fn1(prog, 'asl::SHA1::update', None)
     ctx.analysed(f)
-    n += block_loop(ctx, prog, f, 64, lambda e: e.get('k') == 'call' and (e.get('pq') or e.get('fn') or '').endswith('transform'), 'update:block loop bound')
+    n += block_loop(ctx, prog, f, 64, lambda e: e.get('k') == 'call' and (e.get('pq') or e.get('fn') or '').endswith('transform'), 'update:block loop bound',
+                    decided_by=_SHAPAD.get(id(prog)))
     f = fn1(prog, 'asl::decodeHex', None)
     ctx.analysed(f)
     import scansim
@@ -857,6 +916,8 @@ def check_sha_padding(ctx, prog):
     elif und:
         ctx.undecided('C15.shapad', end['pq'], role, fwhere(end), 'outside the interpreted fragment (message length %d): %s' % und)
     else:
+        _SHAPAD[id(prog)] = ('the block loop is not in offset/length counting form; decided by interpretation of update() (C15.shapad): for every message of 0..%d bytes fed whole '
+                             'and in two pieces, exactly the full blocks reach transform() and no read leaves the %s-byte input' % (lengths[-1], 'L'))
         ctx.ok('C15.shapad', end['pq'], role, fwhere(end), '%d (length, split) histories: block sequence = message, 0x80, zeros, 64-bit big-endian bit length' % runs)
 
 
@@ -921,7 +982,7 @@ def check_decode(ctx, prog):
     ctx.analysed(f)
     # (a) main loop bounded by the given length
     loops = [s_ for s_ in ir.walk_stmts(f['body']) if s_.get('k') in ('while', 'for')]
-    main = [lp for lp in loops if any(e.get('k') == 'idx' and strip(e['b']).get('q') == 'asl::base64_chars_inv' for e in ir.stmt_exprs(lp['body']))]
+    main = [lp for lp in loops if any(inverse_map(prog)[1](e) for e in ir.stmt_exprs(lp['body']))]
     lenvar = None
     for s_ in ir.walk_stmts(f['body']):
         if s_.get('k') == 'decl':
